@@ -211,7 +211,8 @@ bool splinetable<Alloc>::read_fits_core(fitsfile* fits, const std::string& fileP
 			aux = allocate<char_ptr_ptr>(naux);
 			std::fill(aux,aux+naux,nullptr);
 			
-			for (unsigned i = 0, j = 1 ; (i < naux) && (j-1 < unsigned(nkeys)); j++) {
+			unsigned i = 0;
+			for (unsigned j = 1 ; (i < naux) && (j-1 < unsigned(nkeys)); j++) {
 				error = 0;
 				fits_read_keyn(fits, j, key, value, NULL, &error);
 				if (error != 0)
@@ -269,6 +270,10 @@ bool splinetable<Alloc>::read_fits_core(fitsfile* fits, const std::string& fileP
 				}
 				i++;
 			}
+			//Every key counted in the first pass must have been stored: an entry
+			//left null would be dereferenced by every key lookup and by the destructor
+			if (i < naux)
+				throw std::runtime_error("Unable to read the auxiliary keys from "+filePath);
 		} else {
 			aux = NULL;
 			naux = 0;
